@@ -1,6 +1,7 @@
 """C07 -- a delegated role can only provide targets inside its delegated paths (Delegation.tla, tree mode)."""
 import json, os
 import vlib
+import delegclilib
 from vlib import tlc, make_cfg, vh, workdir, write_ndjson, read_ndjson, Verdict, log, tla_set
 
 PID = "C07"
@@ -65,11 +66,14 @@ def run(tier, seed):
            "samples": samples, "evaluations": stats["evaluations"], "distinct_nontrivial": len(stats["nontrivial"]),
            "rule": "repositories = every state of Delegation.tla (tree mode): every delegation tree over the roles, every set of names each edge matches, every set of names each role lists; match sets are realised as literal paths, dir/*, one-'?' patterns and path_hash_prefixes in rotation, names partly spelled with '..' / '.' segments; consistent snapshots so that the requested digest shows which role's entry is enforced; non-trivial = a name is listed by several roles or some edge does not match every name",
            "exhaustive": tier == "quick"}
+    cov.update(delegclilib.run_into(v, PID, tier, seed))
     return v.finish("model_checking", cov, ["TLC; the pattern language is abstracted to the set of names an edge matches; names and patterns never put '/' under a wildcard (globset lets '*' cross '/', which the property does not fix)",
                                             "trees up to 3 delegated roles (depth 3) and 2-3 names exhaustively; fan-out 3 / 6 names are not reached"])
 
 
 def replay(path, seed):
+    if json.load(open(path))["replay"].get("delegcli"):
+        return delegclilib.replay(path, PID, seed)
     rp = json.load(open(path))["replay"]
     w = workdir("c07")
     c = rp["in"]
